@@ -173,7 +173,9 @@ def run(prop, tier, seed, t0):
         "cases_evaluated_inside_coq": info["coq_cases"], "input_distribution": info.get("stats", {}),
         "model_vs_impl_differences": info["ndiffs"], "oracle_failures": info["noracle"],
     }
-    C.write_evidence(prop, tier, seed, "proof", cov,
+    if not proof_ok:
+        cov["explanation"] = "a proof obligation does not check on this tree: " + "; ".join(broken)[:600]
+    C.write_evidence(prop, tier, seed, "proof" if proof_ok else "other", cov,
                      ["model fidelity is established by differential execution, not proved",
                       "usize arithmetic is modelled on unbounded N with explicit checks where the code can overflow"],
                      time.time() - t0, len(violations))
